@@ -1,5 +1,6 @@
 SPECIFICATION Spec
 CONSTANT AsFound = TRUE
+CONSTANT WithStatic = TRUE
 CONSTRAINT Bound
 INVARIANT C16_NoEmptyWindow
 INVARIANT C16_ListExact
